@@ -820,3 +820,48 @@ Qed.
 Example C02_refuted_S1_F16 :
   wrs (tr (run [Start; Reconn; Drop; Reconn; Send 7 true; PumpReq; PumpReady] (init 0 0))) = [7; 7].
 Proof. vm_compute. reflexivity. Qed.
+
+(* ------------------------------------------------------------------ *)
+(** * timer bookkeeping (C08) *)
+
+(** a dispatch re-arms the timer for the full timeout from now, and an expiry that was waiting unread
+    in the timer channel does not survive the re-arm (it could only belong to an earlier request) *)
+Lemma dispatch_rearms_timer s h t :
+  pumpStuck s = false -> paused s = false -> rdy s = true -> q s = h :: t -> pend s = 0 -> h <> 0 ->
+  readyC s = 0 -> (tmo s = TOff -> tok s = true) ->
+  tmo (pump_tail s) = TShort (now s + timeout s) /\ (tmo s = TOff -> tok (pump_tail s) = false).
+Proof.
+  intros H1 H2 H3 H4 H5 H6 H7 H8. rewrite (pump_tail_eq s h t H1 H2 H3 H4 H5 H6 H7 H8).
+  destruct (conn s && negb (failw s)); cbn; (split; [reflexivity|]); intros E; unfold tm_after; rewrite E; reflexivity.
+Qed.
+
+(** the clock: an expiry is produced only when the armed deadline has been reached *)
+Lemma tick_never_early s dt :
+  tok (step (Tick dt) s) = true -> tok s = true \/ exists d, tmo s = TShort d /\ d <= now s + Z.max 0 dt.
+Proof.
+  cbn [step]. cbv zeta. change (tmo (set_now s (now s + Z.max 0 dt))) with (tmo s).
+  destruct (tmo s) as [| |d] eqn:E; cbn; auto.
+  destruct (d <=? now s + Z.max 0 dt) eqn:E2; cbn; auto.
+  intros _. right. exists d. split; [reflexivity|apply Z.leb_le; exact E2].
+Qed.
+
+(** reconnection: the outstanding request gets a fresh full timeout; with nothing outstanding the pump is woken *)
+Lemma reconnect_rearms s :
+  conn s = false -> started s = true -> closing s = false ->
+  (pend s <> 0 -> tmo (step Reconn s) = TShort (now s + timeout s)) /\
+  (pend s = 0 -> readyC (step Reconn s) = readyC s + 1).
+Proof.
+  intros H1 H2 H3. cbn [step]. rewrite H1, H2, H3. cbn.
+  split; intros H.
+  - apply Z.eqb_neq in H. rewrite H. reflexivity.
+  - rewrite H. reflexivity.
+Qed.
+
+(** disconnection parks the timer: no request times out while the client is offline (until the idle tick) *)
+Lemma drop_parks_timer s : conn s = true -> started s = true -> (tmo s = TOff -> tok s = true) ->
+  tmo (step Drop s) = TLong /\ tok (step Drop s) = (match tmo s with TOff => false | _ => tok s end) /\ pumpStuck (step Drop s) = pumpStuck s.
+Proof.
+  intros H1 H2 H3. cbn [step]. rewrite H1. cbv zeta.
+  change (started (emit (set_conn s false) EDrop)) with (started s). rewrite H2.
+  unfold stop_drain. cbn. destruct (tmo s) eqn:E; [rewrite (H3 eq_refl)|..]; cbn; auto.
+Qed.
